@@ -28,6 +28,15 @@ def main():
     w2.wait(20)
     if w2.user_state != ('child', 7):
         viol.append(f"worker that raised: user_state is {w2.user_state!r}, expected ('child', 7)")
+    # the last value the child assigns is what the parent sees after the end, whatever it is: None, falsy values, a value equal to the initial one
+    for init, values in (('initial', [5, None]), (1, [2, 0]), ([1], [[], '']), (None, [3, None]), ('same', ['x', 'same'])):
+        for then in ('return', 'raise'):
+            w3 = ProcessWorker(T.set_states, args=(values, then), init_state=init)
+            w3.wait(20)
+            got = w3.user_state
+            obs[f'{init!r}->{values!r}/{then}'] = got
+            if got != values[-1] or type(got) is not type(values[-1]):
+                viol.append(f"init_state={init!r}, the child assigns {values!r} and {then}s: after the end user_state is {got!r}, the child's last value was {values[-1]!r}")
     print(json.dumps({'violates': bool(viol), 'violations': viol, 'observed': obs, 'scenario': json.loads(sys.argv[1])}, default=repr))
 
 
